@@ -8,5 +8,6 @@ for pair in "A:$a" "B:$b"; do
   mkdir -p /verif/seeded/$id$suf && cp $d/$id/$src/patch.diff $d/$id/$src/meta.json /verif/seeded/$id$suf/ && cp $d/$id/$src/demo_test.go /verif/seeded/$id$suf/ 2>/dev/null
   ls $d/$id/$src | grep -v -E "^(patch.diff|meta.json|demo_test.go)$" | while read f; do cp -r $d/$id/$src/$f /verif/seeded/$id$suf/; done
 done
-for wt in /tmp/seedgen/wt3-$id; do [ -d $wt ] && git -C /repo worktree remove --force $wt; done
+[ -f $d/$id/A/patch.diff ] && [ -f $d/$id/B/patch.diff ] || { echo "$id: deliverables incomplete, worktree kept"; exit 0; }
+for wt in /tmp/seedgen/wt3-$id /tmp/seedgen/wt4-$id; do [ -d $wt ] && git -C /repo worktree remove --force $wt; done
 /verif/tools/verify_seed.sh $id$a $id$b
